@@ -158,6 +158,14 @@ FamPrism(kind) == { Regular(kind, 6, PrismEdges, M, r) : M \in Matchings(PrismEd
 FamCube(kind) == { Regular(kind, 8, CubeEdges, M, r) :
                      M \in { m \in Matchings(CubeEdges) : Cardinality(m) = 4 }, r \in {"formed", "fleeting"} }
 
+(* An octahedral centre whose first ligand is itself a stereocentre (pyramidal donor atom with a lone pair): two
+   descriptors that share a bond - what one centre's export does to the bond must not disturb the other. *)
+OctDonor(kind, le, p1, p2) ==
+   [Mk(kind, (1 :> 27) @@ (2 :> 7) @@ [k \in 3..7 |-> le[k - 2]] @@ (8 :> 1) @@ (9 :> 9),
+       [b \in { {1, k} : k \in 2..7 } \cup { {2, 8}, {2, 9} } |-> Bd("none")])
+      EXCEPT !.ast = (1 :> D("Octahedral", <<1,2,3,4,5,6,7>>, p1)) @@ (2 :> D("Tetrahedral", <<2,1,8,9,NoAtom>>, p2))]
+FamOctDonor(kind) == { OctDonor(kind, le, p1, p2) : le \in { <<1,9,17,35,53>>, <<9,9,17,17,1>> }, p1 \in {1, -1}, p2 \in {1, -1} }
+
 (* Partner exchange among three diatomics: reactant bonds 1-2, 3-4, 5-6, product any perfect matching of the six
    atoms (identity, a four-ring exchange with a spectator, the six-ring exchange, ...).  Reactant and product look the
    same atom by atom; only the transition structure (the union of all bonds) tells the reactions apart. *)
@@ -181,6 +189,7 @@ Family == CASE Fam = "alltet" -> AllPlace("SMG", "Tetrahedral", 6, <<1, 9, 17, 3
             [] Fam = "crg2"  -> FamCRG(2, "CRG", {1, 6})
             [] Fam = "crg3"  -> FamCRG(3, "CRG", {1, 6})
             [] Fam = "scrg2" -> FamCRG(2, "SCRG", {1, 6})
+            [] Fam = "octdonor" -> FamOctDonor("SMG")
             [] Fam = "exch" -> FamExch("CRG")
             [] Fam = "exchs" -> FamExch("SCRG")
             [] Fam = "prismr" -> FamPrism("CRG")
